@@ -88,7 +88,7 @@ def aux_field(case, mesh, lat):
         n2 = list(case["aux_other"])
     m2 = df.Mesh(region=mesh.region, n=n2)
     rng = np.random.default_rng(case["aux_seed"])
-    vals = rng.integers(0, 3, size=(*n2, 1)).astype(float)  # zeros hide cells
+    vals = rng.choice([0.0, 0.0, 0.25, -1.0, 2.0, 1e-9], size=(*n2, 1))  # exactly zero hides a cell, nothing else does
     if case["aux"] == "color":
         vals = np.arange(int(np.prod(n2))).reshape(*n2, 1) + 0.125
     af = df.Field(m2, nvdim=1, value=vals)
